@@ -10,7 +10,12 @@
 // oracle per schedule: every thread's outcome (accept/reject + destination values + hash of the usage text) equals its solo outcome;
 //   no data race on static storage or heap of the executable (vector-clock detector); no deadlock.
 #include "engine/common.hpp"
+#ifdef XS_FREE_RUNNING
+#include "engine/sched/xsched_free.hpp"      // real libtsan, free-running threads (cross-check pass)
+#else
 #include "engine/sched/xsched.hpp"
+#include "engine/sched/crosscheck.hpp"
+#endif
 #include "celma/prog_args.hpp"
 #include "celma/prog_args/groups.hpp"
 #include <thread>
@@ -23,7 +28,9 @@
 #include "celma/prog_args/level_counter.hpp"
 using namespace celma::prog_args;
 
+#ifndef XS_FREE_RUNNING
 extern "C" void exit(int code) { fprintf(stderr, "UNEXPECTED-EXIT code %d\n", code); fflush(stderr); _exit(99); }
+#endif
 
 static std::string eval(Handler& h, std::vector<std::string> words) {
    std::vector<char*> av; std::string prog = "prog"; av.push_back(&prog[0]); for (auto& w : words) av.push_back(&w[0]); av.push_back(nullptr);
@@ -139,6 +146,18 @@ static const Scen scens[] = {
 };
 static std::string scen_name(const Scen& s) { std::string n; for (int i = 0; i < s.n; ++i) n += (i ? "+" : "") + std::string(body_names[s.m[i]]); return n; }
 
+#ifdef XS_FREE_RUNNING
+int main(int argc, char** argv) {
+   int reps = argc > 1 ? atoi(argv[1]) : 10;
+   for (int k = 0; k < NBODY; ++k) {          // expected outcomes: each body alone in a fresh process
+      int fd[2]; if (pipe(fd) != 0) return 3; pid_t pid = fork();
+      if (pid == 0) { close(fd[0]); std::string r = bodies[k](); if (write(fd[1], r.data(), r.size()) < 0) _exit(3); _exit(0); }
+      close(fd[1]); ssize_t n = read(fd[0], g_expected[k], sizeof g_expected[k] - 1); g_expected[k][n > 0 ? n : 0] = 0; close(fd[0]); int st; waitpid(pid, &st, 0);
+   }
+   for (auto& s : scens) { g_nmembers = s.n; for (int i = 0; i < s.n; ++i) g_members[i] = s.m[i]; xs::run_free(scen_name(s).c_str(), body_group, reps); }
+   return 0;
+}
+#else
 int main(int argc, char** argv) {
    vf::init(argc, argv);
    vf::Ctx& c = vf::ctx();
@@ -187,7 +206,9 @@ int main(int argc, char** argv) {
       vf::fact("preemption_bound_" + name, std::to_string(o.bound));
       vf::nontrivial_by_construction(st.executions_with_switch_between_conflicting);
    }
+   if (c.shard == 0 && c.only < 0) xs::libtsan_crosscheck(vf::thorough() ? 60 : 8);
    vf::count("evaluations", execs); vf::count("states", execs); vf::count("transitions", points); vf::count("traces", execs); vf::count("race_reports", races);
    vf::finish();
    return 0;
 }
+#endif
